@@ -321,6 +321,11 @@ func genC04(t *rapid.T) *Case {
 		if pct(t, 15, "tinyq") {
 			s.QSize = 1 + uni(t, 2, "q")
 		}
+		if s.Transport == "" && pct(t, 30, "rewriter") {
+			// an in-process application that rewrites what it is handed, while the router
+			// may still be delivering the same publication to others
+			s.Rewrite = true
+		}
 		if i != wire && pct(t, 15, "hostilehello") {
 			s.Hello = append(s.Hello, KV{pick(t, []string{"roles", "authmethods", "authid", "authextra", "transport", "authrole", "session"}, "hk"), genHostileValue(t, s.Transport == "")})
 		}
